@@ -148,9 +148,15 @@ func checkC13(t *testing.T, env *report.Env, rep *report.Report) {
 		"'well-formed document of the documented shape' is decided by an independent structural validator (generic JSON decode + shape check); where the store is more lenient than the validator but the validator accepts (extra members, duplicate keys) nothing is demanded",
 		"crash model for the file cache as for C04: issued calls took effect, unsynced data may vanish, renames persist",
 	}
+	all := append(pollScenarios(), lookupScenarios()...)
+	if hx.ReplaySched(t, env, rep, mk(map[string]bool{"C13": true}, all...)) {
+		return
+	}
 	if env.Shard == 0 {
 		runSeq(env, rep, "C13", 4, 5, true)
 	}
+	// concurrent installs: lookups and polls racing, with the cache's Write as a scheduling point
+	runSched(t, env, rep, map[string]bool{"C13": true}, "sched-cache-writes-of-concurrent-installs", append(lookupScenarios()[0:1], append(lookupScenarios()[3:], pollScenarios()[0])...), 2, 3)
 	// (c) malformed contents
 	n := 5
 	if env.Thorough() {
